@@ -13,21 +13,21 @@ ROOT = os.path.dirname(os.path.dirname(os.path.abspath(__file__)))
 
 # property -> list of stages; each stage = (family, focus, runs_quick, runs_thorough, params)
 CHECKS = {
-    "C01": {"level": "exploration", "stages": [("e1", "C01", 120000, 3000000, {}), ("e2", "C01", 4000, 150000, {})]},
-    "C02": {"level": "exploration", "stages": [("e1", "C02", 80000, 2500000, {}), ("e2", "C02", 4000, 150000, {})]},
-    "C03": {"level": "exploration", "stages": [("e1", "C03", 60000, 2000000, {}), ("e2", "C03", 4000, 150000, {})]},
+    "C01": {"level": "exploration", "stages": [("e1", "C01", 120000, 3000000, {}), ("e2", "C01", 8000, 400000, {})]},
+    "C02": {"level": "exploration", "stages": [("e1", "C02", 80000, 2500000, {}), ("e2", "C02", 8000, 400000, {})]},
+    "C03": {"level": "exploration", "stages": [("e1", "C03", 60000, 2000000, {}), ("e2", "C03", 8000, 400000, {})]},
     "C04": {"level": "exploration", "stages": [("e1", "C04", 40000, 1500000, {})]},
     "C07": {"level": "exploration", "stages": [("e1", "C07", 60000, 1500000, {}), ("e3", "C07", 20000, 600000, {})]},
     "C08": {"level": "exploration", "stages": [("e1", "C08", 50000, 1500000, {})]},
-    "C09": {"level": "exploration", "stages": [("e3", "C09", 40000, 1500000, {}), ("e1", "C09", 20000, 600000, {})]},
+    "C09": {"level": "exploration", "stages": [("e3", "C09", 60000, 4000000, {}), ("e1", "C09", 20000, 600000, {})]},
     "C10": {"level": "exploration", "stages": [("e1", "C10", 20000, 700000, {})]},
     "C13": {"level": "exploration", "stages": [("e1c13", "C13", 20000, 700000, {}), ("e6", "C13", 0, 0, {"runs_factor": 1})]},
     "C15": {"level": "exploration", "stages": [("e4", "C15", 0, 0, {})]},
     "C16": {"level": "exploration", "stages": [("e1", "C16", 30000, 1000000, {}), ("e3", "C16", 20000, 600000, {})]},
-    "C17": {"level": "exploration", "stages": [("e1", "C17", 30000, 1000000, {}), ("e2", "C17", 4000, 150000, {})]},
-    "C11": {"level": "exploration", "stages": [("e2", "C11", 8000, 300000, {})]},
-    "C12": {"level": "exploration", "stages": [("e2", "C12", 8000, 300000, {})]},
-    "C18": {"level": "fault_enumeration", "stages": [("e2", "C18", 1500, 60000, {})]},
+    "C17": {"level": "exploration", "stages": [("e1", "C17", 30000, 1000000, {}), ("e2", "C17", 8000, 400000, {})]},
+    "C11": {"level": "exploration", "stages": [("e2", "C11", 20000, 1500000, {})]},
+    "C12": {"level": "exploration", "stages": [("e2", "C12", 20000, 1500000, {})]},
+    "C18": {"level": "fault_enumeration", "stages": [("e2", "C18", 6000, 600000, {})]},
     "C19": {"level": "fault_enumeration", "stages": [("e5", "C19", 0, 0, {})]},
     "C20": {"level": "exploration", "stages": [("e6", "C20", 0, 0, {})]},
 }
@@ -118,6 +118,7 @@ def main(argv=None):
     ap.add_argument("--seconds", type=float, help="wall-clock cap for the whole check (stops submitting new runs)")
     ap.add_argument("--stage", help="only this family")
     ap.add_argument("--no-evidence", action="store_true")
+    ap.add_argument("--no-known", action="store_true", help="developer aid: ignore known_findings.json")
     ap.add_argument("--survey", action="store_true", help="list violation classes of ALL properties, no shrinking")
     ap.add_argument("--param", action="append", default=[], help="developer aid: key=value override of stage params")
     ap.add_argument("--dump-logs", help="selftest aid: write the ordered list of event-log hashes to this file")
@@ -136,7 +137,7 @@ def main(argv=None):
         return 2
     from sim import runner
 
-    known = load_known()
+    known = load_known() if not args.no_known else {"findings": [], "fixed": []}
     kparams = known_params(known)
     extra = {}
     for kv in args.param:
@@ -182,7 +183,7 @@ def main(argv=None):
     t0 = time.time()
     spec = CHECKS[prop]
     tier = args.tier
-    default_cap = 170.0 if tier == "quick" else 3300.0
+    default_cap = 900.0 if tier == "quick" else 7000.0
     deadline = t0 + (args.seconds if args.seconds else default_cap)
     totals = []
     rc = 0
